@@ -82,7 +82,87 @@ func CreateConsensusRawMessage(message ConsensusMessage) *ConsensusRawMessage {
 	return rawMessage
 }
 
-func ToConsensusMessage(consensusMessage *ConsensusRawMessage) ConsensusMessage {
+// ToConsensusMessage returns nil for content that matches no consensus message type or that is malformed. The membuffers
+// readers panic on some damaged buffers (a length field of 0xffffffff, for one), and fields are read lazily, long after
+// parsing. So every field the library reads is read once here, and a panic while doing so rejects the message; reading
+// the same fields of the same bytes again later cannot panic.
+func ToConsensusMessage(consensusMessage *ConsensusRawMessage) (message ConsensusMessage) {
+	defer func() {
+		if r := recover(); r != nil {
+			message = nil
+		}
+	}()
+	message = parseConsensusMessage(consensusMessage)
+	if message != nil {
+		readAllFields(message)
+	}
+	return message
+}
+
+func readBlockRef(ref *protocol.BlockRef) {
+	ref.MessageType()
+	ref.InstanceId()
+	ref.BlockHeight()
+	ref.View()
+	ref.BlockHash()
+	ref.Raw()
+}
+
+func readSender(sender *protocol.SenderSignature) {
+	sender.MemberId()
+	sender.Signature()
+	sender.Raw()
+}
+
+func readViewChangeContent(content *protocol.ViewChangeMessageContent) {
+	header := content.SignedHeader()
+	header.MessageType()
+	header.InstanceId()
+	header.BlockHeight()
+	header.View()
+	header.Raw()
+	if proof := header.PreparedProof(); proof != nil && len(proof.Raw()) > 0 {
+		readBlockRef(proof.PreprepareBlockRef())
+		readSender(proof.PreprepareSender())
+		readBlockRef(proof.PrepareBlockRef())
+		for it := proof.PrepareSendersIterator(); it.HasNext(); {
+			readSender(it.NextPrepareSenders())
+		}
+	}
+	readSender(content.Sender())
+}
+
+func readAllFields(message ConsensusMessage) {
+	switch m := message.(type) {
+	case *PreprepareMessage:
+		readBlockRef(m.content.SignedHeader())
+		readSender(m.content.Sender())
+	case *PrepareMessage:
+		readBlockRef(m.content.SignedHeader())
+		readSender(m.content.Sender())
+	case *CommitMessage:
+		readBlockRef(m.content.SignedHeader())
+		readSender(m.content.Sender())
+		m.content.Share()
+	case *ViewChangeMessage:
+		readViewChangeContent(m.content)
+	case *NewViewMessage:
+		header := m.content.SignedHeader()
+		header.MessageType()
+		header.InstanceId()
+		header.BlockHeight()
+		header.View()
+		header.Raw()
+		for it := header.ViewChangeConfirmationsIterator(); it.HasNext(); {
+			readViewChangeContent(it.NextViewChangeConfirmations())
+		}
+		readSender(m.content.Sender())
+		readBlockRef(m.content.Message().SignedHeader())
+		readSender(m.content.Message().Sender())
+	}
+}
+
+func parseConsensusMessage(consensusMessage *ConsensusRawMessage) ConsensusMessage {
 	var message ConsensusMessage
 	lhContentReader := protocol.LeanhelixContentReader(consensusMessage.Content)
 
